@@ -332,3 +332,36 @@ CELLS.append(Cell('P2.mode_rows', p2_mode_rows, 'P', ['fst.parsex.parse', 'fst.f
                   'the 89 (fragment, mode) rows of the C19 table (33 distinct modes incl. every special slice) x up to 6 layouts each (plain, trailing comment, trailing newline, split after a comma with a '
                   'comment, non-ASCII names, wide spacing); the tree must equal CPython\'s parse of the construct holding the fragment incl. relative positions, the source is kept (finite table, solver-enumerated)',
                   budget=900, per_path=60, out='arbitrary source text (C parser: no symbolic dimension survives)'))
+
+
+# ---------------------------------------------------------------------------------------------------------------- P3
+LINE_END_SRCS = ['a = 1\nb = (2,\n     3)\n', 'a = 1\r\nb = (2,\r\n     3)\r\n', 'a = 1\rb = 2\r', 'if a:\r    b\r', 'a = 1\r\nb = 2\rc = 3\n', 'x = "é"\r\ny = x\r\n']
+
+
+def p3_line_endings(i: int):
+    """whatever Python accepts as a line end, every node's location must denote the node's own text (Python's ast.get_source_segment)"""
+    assume(0 <= i < len(LINE_END_SRCS))
+    src = LINE_END_SRCS[pc.pin(i, 0, len(LINE_END_SRCS) - 1)]
+    kind = 'crlf' if '\r\n' in src and '\r' not in src.replace('\r\n', '') else 'bare_cr' if '\r' in src else 'lf'
+    with pc.untraced():
+        t = ast.parse(src)
+    try:
+        root = FST(src, 'exec')
+    except Exception as ex:   # noqa: BLE001
+        fail('line_endings.valid_source_rejected:' + kind, (src, type(ex).__name__, str(ex)[:100]))
+    with pc.untraced():
+        check(root.src == src, 'line_endings.source_not_kept:' + kind, (src, root.src))
+        check(ast.dump(root.a, include_attributes=True) == ast.dump(t, include_attributes=True), 'line_endings.tree_differs_from_python_parse:' + kind, (src,))
+        for n, m_ in zip(ast.walk(root.a), ast.walk(t)):
+            if hasattr(m_, 'end_col_offset'):
+                try:
+                    got = n.f.src
+                except Exception as ex:   # noqa: BLE001
+                    fail('line_endings.location_does_not_denote_text:' + kind, (src, type(n).__name__, type(ex).__name__))
+                exp = ast.get_source_segment(src, m_)
+                check(got.replace('\r\n', '\n').replace('\r', '\n') == (exp or '').replace('\r\n', '\n').replace('\r', '\n'), 'line_endings.location_does_not_denote_text:' + kind, (src, type(n).__name__, got, exp))
+    cover('ok')
+
+
+CELLS.append(Cell('P3.line_endings', p3_line_endings, 'P', ['fst.fst.FST.__new__', 'fst.fst.FST.loc'], f'{len(LINE_END_SRCS)} sources with LF, CRLF, bare CR and mixed line ends: source kept, tree == CPython parse, every location denotes the node text',
+                  budget=120, per_path=60, out='form feed and other separators which Python does not treat as line ends'))
